@@ -38,6 +38,9 @@ type Ledger struct {
 	MinLat, MaxLat time.Duration // latency of calls
 	EvMin, EvMax   time.Duration // latency of event delivery
 	FailP          float64       // probability that a Register/Withdraw call fails outright (relaxed configurations)
+	// FailRegisterOnce[name]: the next Register call of that party fails with a
+	// transient error (the transaction did not go through), then the entry is removed.
+	FailRegisterOnce map[string]bool
 	ExtendOnRefute bool          // false: a refutation does not extend the challenge period
 }
 
@@ -467,7 +470,13 @@ func (p *Party) Register(ctx context.Context, req channel.AdjudicatorReq, subs [
 	name := l.S.ChanName(id)
 	issued := l.S.Now()
 	l.S.Sleep("ledger:Register:"+p.Name+":"+name, l.MinLat, l.MaxLat)
-	if l.FailP > 0 && l.S.Chance("ledgerfail:Register:"+p.Name+":"+name, l.FailP) {
+	l.mu.Lock()
+	once := l.FailRegisterOnce[p.Name]
+	if once {
+		delete(l.FailRegisterOnce, p.Name)
+	}
+	l.mu.Unlock()
+	if once || l.FailP > 0 && l.S.Chance("ledgerfail:Register:"+p.Name+":"+name, l.FailP) {
 		l.S.Count("fault.ledger_call_failure", 1)
 		l.S.Event(p.Name, "ledger:Register", name+" injected failure")
 		l.mu.Lock()
@@ -840,6 +849,38 @@ func (l *Ledger) HasSub(who string, id channel.ID) bool {
 }
 
 // emit runs with l.mu held.
+// ArmRegisterFailure arms (or disarms) the one-shot failure of name's next
+// Register call.
+func (l *Ledger) ArmRegisterFailure(name string, on bool) {
+	l.mu.Lock()
+	defer l.mu.Unlock()
+	if l.FailRegisterOnce == nil {
+		l.FailRegisterOnce = map[string]bool{}
+	}
+	if on {
+		l.FailRegisterOnce[name] = true
+	} else {
+		delete(l.FailRegisterOnce, name)
+	}
+}
+
+// Redeliver delivers the channel's latest event once more to every
+// subscription (a node that re-subscribes after a reconnect, or a chain
+// reorganisation, replays the most recent event).
+func (l *Ledger) Redeliver(id channel.ID) bool {
+	l.mu.Lock()
+	defer l.mu.Unlock()
+	c := l.chans[id]
+	if c == nil || c.latest == nil {
+		return false
+	}
+	for _, sub := range c.subs {
+		l.schedule(sub, c.latest)
+	}
+	l.S.Count("fault.ledger_event_redelivered", 1)
+	return true
+}
+
 func (l *Ledger) emit(c *lchan, e channel.AdjudicatorEvent) {
 	c.latest = e
 	for _, sub := range c.subs {
